@@ -51,7 +51,7 @@ func buildKinds() []kind {
 		{Name: "ascii", Expr: `"abc"`, Home: "string", Go: "abc"},
 		{Name: "numeric-string", Expr: `" 42 "`, Home: "string", Go: " 42 "},
 		{Name: "astral", Expr: "\"a\U0001F600b\U00010000\"", Home: "string", Go: "a\U0001F600b\U00010000"},
-		{Name: "bmp", Expr: `"é� ￿\u0000z"`, Home: "string", Go: "é� ￿\x00z"},
+		{Name: "bmp", Expr: `"\u00e9\ufffd\u2028\uffff\u0000z"`, Home: "string", Go: "\u00e9\ufffd\u2028\uffff\x00z"},
 		{Name: "lone-surrogate", Expr: `"\ud800x\udc00"`, Home: "string"},
 		{Name: "invalid-utf8", Expr: `__gobad`, Home: "string", Go: "a\xff\xfe\xc0\x80b\xed\xa0\x80", Hostile: true},
 		{Name: "long-string", Expr: `new Array(300).join("xy")`, Home: "string"},
